@@ -15,8 +15,8 @@ import (
 	"encoding/hex"
 	"errors"
 	"fmt"
-	"strings"
 	"net"
+	"strings"
 	"sync"
 	"sync/atomic"
 	"time"
@@ -170,7 +170,9 @@ func (g *c28Gen) tsOutside() (uint64, string) {
 	}
 }
 
-func (g *c28Gen) sign(c *c28Cmd, kp *crypto.SigningKeypair) { c.Sig = crypto.Sign(kp.PrivateKey, c.signable()) }
+func (g *c28Gen) sign(c *c28Cmd, kp *crypto.SigningKeypair) {
+	c.Sig = crypto.Sign(kp.PrivateKey, c.signable())
+}
 
 func (g *c28Gen) finish(c *c28Cmd) *c28Cmd {
 	c.SigOK = ed25519.Verify(ed25519.PublicKey(g.good.PublicKey[:]), c.signable(), c.Sig[:])
@@ -331,6 +333,7 @@ func (p *c28Peer) take() []c28Rx {
 
 func (p *c28Peer) run(hs chan<- error) {
 	defer close(p.done)
+	defer p.pc.Close() // never leave the agent blocked writing to a reader that is gone
 	w := protocol.NewFrameWriter(p.pc)
 	rd := protocol.NewFrameReader(p.pc)
 	hello := &protocol.PeerHello{Version: protocol.ProtocolVersion, AgentID: p.id, Timestamp: uint64(time.Now().UnixNano()),
@@ -372,15 +375,16 @@ type c28Event struct {
 }
 
 type c28Rig struct {
-	a      *Agent
-	r      *verifkit.R
-	gen    *c28Gen
-	peers  map[identity.AgentID]*c28Peer
-	ids    []identity.AgentID // fake peer ids: ids[0] is the sender, the rest observe
-	evMu   sync.Mutex
-	events []c28Event
-	tokN   uint64
-	broken string // set when the rig could not do its job (=> inconclusive, never a violation)
+	a       *Agent
+	r       *verifkit.R
+	gen     *c28Gen
+	peers   map[identity.AgentID]*c28Peer
+	ids     []identity.AgentID // fake peer ids: ids[0] is the sender, the rest observe
+	evMu    sync.Mutex
+	events  []c28Event
+	tokN    uint64
+	canSign bool
+	broken  string // set when the rig could not do its job (=> inconclusive, never a violation)
 }
 
 const c28Watchdog = 60 * time.Second
@@ -395,6 +399,10 @@ func c28NewRig(r *verifkit.R, rng *verifkit.Rand, dataDir string, npeers int) (*
 	cfg.Sleep.PollInterval = time.Hour // no poll cycle during a case
 	cfg.Sleep.PersistState = rng.Bool()
 	cfg.Management.SigningPublicKey = hex.EncodeToString(g.good.PublicKey[:])
+	canSign := rng.Bool() // an operator's agent also holds the private key (TriggerSleep signs with it)
+	if canSign {
+		cfg.Management.SigningPrivateKey = hex.EncodeToString(g.good.PrivateKey[:])
+	}
 	a, err := New(cfg)
 	if err != nil {
 		return nil, fmt.Errorf("agent.New: %w", err)
@@ -406,7 +414,7 @@ func c28NewRig(r *verifkit.R, rng *verifkit.Rand, dataDir string, npeers int) (*
 		a.Stop()
 		return nil, errors.New("sleep manager not created although sleep.enabled is true")
 	}
-	h := &c28Rig{a: a, r: r, gen: g, peers: map[identity.AgentID]*c28Peer{}}
+	h := &c28Rig{a: a, r: r, gen: g, peers: map[identity.AgentID]*c28Peer{}, canSign: canSign}
 	// recording wrappers around the agent's own callbacks (behaviour unchanged)
 	a.sleepMgr.SetCallbacks(sleep.Callbacks{
 		OnSleep: func() error { h.event("sleep"); return a.enterSleep() },
